@@ -153,7 +153,7 @@ class TapeCassette(object):
             return False
 
         if isinstance(match_value, str):
-            return fnmatch(recorded_value, match_value)
+            return isinstance(recorded_value, str) and fnmatch(recorded_value, match_value)
 
         return recorded_value == match_value
 
@@ -161,6 +161,19 @@ class TapeCassette(object):
     def _operator_filter(recorded_value, metadata_value):
         """
         Check if this is an operator metadata filter and its value is in range
+        """
+        result = False
+        try:
+            result = TapeCassette._compare_by_operator(recorded_value, metadata_value)
+        except TypeError:
+            # Values of incomparable types (e.g. a missing value) never match
+            result = False
+        return result
+
+    @staticmethod
+    def _compare_by_operator(recorded_value, metadata_value):
+        """
+        Compares the recorded value with the filter value using the filter operator
         """
         result = False
         if metadata_value['operator'] == '=':
